@@ -401,6 +401,7 @@ def run(ctx) -> list[Inst]:
                          f"held is lost on save"),
                     file=w.func.module.relpath, line=w.value.lineno, props=props))
     insts += _absent_defaults(ctx)
+    insts += _ids_through_adders(ctx)
     insts += _id_keys(ctx)
     insts += _extensions(ctx)
     insts += _file_layer(ctx)
@@ -1357,4 +1358,44 @@ def _absent_defaults(ctx) -> list[Inst]:
                          f"constructed {cname} has {dv!r}: a file written without that key (older versions, hand-written "
                          f"graphs) loads as a different object - e.g. every step unviable before the analysis has run"),
                     file=rel, line=n.lineno, props=cd['props'] + (('C08',) if F in ('is_viable', 'is_necessary') else ())))
+    return insts
+
+
+ADDER_ID_PARAM = {'add_node': 'node_id', 'add_attacker': 'attacker_id', 'add_asset': 'asset_id'}
+
+
+def _ids_through_adders(ctx) -> list[Inst]:
+    """(xiv) the id stored in the file reaches the object through the id parameter of add_node / add_attacker /
+    add_asset: those functions ASSIGN the id (`x.id = given if given is not None else next_id`), so an id that was only
+    put on the object beforehand (constructor argument, attribute) is overwritten with the next free number."""
+    prog = ctx.prog
+    insts = []
+    for cd in CODECS:
+        rf = prog.func(cd['reader'])
+        rel = rf.module.relpath
+        for n in own_nodes(rf.node):
+            if not (isinstance(n, ast.Call) and isinstance(n.func, ast.Attribute) and n.func.attr in ADDER_ID_PARAM):
+                continue
+            prm = ADDER_ID_PARAM[n.func.attr]
+            construct = f"(xiv) {cd['name']}: {n.func.attr} receives the stored id through {prm}"
+            val = next((k.value for k in n.keywords if k.arg == prm), None)
+            if val is None:
+                res = prog.env(rf).resolve_call(n)
+                if res[0] == 'func' and prm in res[1].params:
+                    idx = res[1].params.index(prm) - (1 if res[1].params and res[1].params[0] in ('self', 'cls') else 0)
+                    if 0 <= idx < len(n.args):
+                        val = n.args[idx]
+            if any(k.arg is None for k in n.keywords):
+                insts.append(Inst(RULE, rf.short, construct, 'unproven', msg='arguments passed through **mapping', file=rel,
+                                  line=n.lineno, props=cd['props']))
+            elif val is None or (isinstance(val, ast.Constant) and val.value is None):
+                insts.append(Inst(
+                    RULE, rf.short, construct, 'violation',
+                    msg=(f"'{stmt_text(n, 90)}' does not pass {prm}: {n.func.attr} then numbers the object itself "
+                         f"(next free id), whatever id the file gave it - loaded ids differ from the saved ones as soon as "
+                         f"they are not 0..n-1 in file order"),
+                    file=rel, line=n.lineno, props=cd['props']))
+            else:
+                insts.append(Inst(RULE, rf.short, construct, 'ok', msg=stmt_text(val, 50), file=rel, line=n.lineno,
+                                  props=cd['props']))
     return insts
